@@ -34,6 +34,8 @@ BUILT = {
          "Exact offsets are compared between library and model on generated inputs; the error message text is not modelled."),
  "C09": ("Theorems: the dispatcher of functions.go (regenerated table, 26 handlers) equals the specification's call on every name and argument list, and the specification's call has the relational reading the property lists: sort/sort_by return a permutation in ascending order with equivalent keys in input order (stable), max/min the first greatest/least number or string (byte order = code-point order), max_by/min_by the element of the first extremal key and null for an empty array, merge gives each key the value of the last argument binding it, map returns one result per element (nulls kept), avg of nothing is null, to_number a finite number or null, not_null the first non-null argument, length/reverse count and reverse Unicode code points (UTF-8 decode-of-encode theorem), and the defining equations of the other functions; expression references are applied element by element with the element as current node (keyed).",
          "The order theorems for numbers assume NumOrder (< is a strict weak order on finite numbers: an IEEE 754 fact about float64 that is not proved for the PrimFloat instance); 'to_string output decodes back to the argument' is checked by the run (Go-side round trip and model/library comparison), not proved. Full function x typed-universe matrix, standalone and nested, runs through library, model and specification."),
+ "C19": ("Theorems about the model of run() (Model/Cli.v: argument count, Parse, input channel, json.Unmarshal, Search, MarshalIndent, Println, status): valid expression + valid input + successful Search => standard output is exactly the indented JSON text of the library's result plus a newline, status 0; status 0 only then; every failure (invalid expression, unreadable or invalid input, evaluation error, unserialisable result, wrong argument count) => status 1 and empty standard output; both channels interchangeable; never a panic; under C16's proviso the result is always serialisable. Tie: the built jpgo binary is run on generated (expression, input, channel) triples and its status and standard output are compared byte for byte with the model's, and with the library called directly.",
+         "Not modelled: the text on standard error, the flag package (-ast, option parsing), real file system and pipe behaviour (a read either delivers the bytes or fails). MarshalIndent is modelled (encoding/json is standard library: modelled, not verified)."),
  "C16": ("Theorems: Search on any expression text and any JSON document returns, when it succeeds, a value with no expression reference and only well-formed string-keyed objects (unconditional, any number type incl. binary64); all its numbers are finite under the property's no-overflow proviso (NoOverflow: abs, ceil, floor, length conversion, addition and division by a length preserve finiteness - satisfiable, shown for exact arithmetic); to_number and JSON literals yield finite numbers or null/error, avg of nothing is null; JSON data is always serialisable.",
          "PARTIAL for the last clause: 'serialise and read back an equal value' is not a theorem (needs a print/parse round-trip law of float formatting); the harness does the json.Marshal/Unmarshal round trip and a nil-vs-empty type walk on the real result of every generated call. NoOverflow is a hypothesis on the number operations as a whole, so for binary64 the finiteness half is a theorem only about evaluations of a number type in which sums cannot overflow; on binary64 itself finiteness is checked by the run."),
  "C10": ("Theorems: the dispatcher of functions.go (regenerated table, resolveArgs/typeCheck, 26 handlers with unchecked assertions) equals the specification's call for every name and argument list; ill-typed / wrong arity / unknown => error; inconsistent by-keys => error at any length; evaluation never panics.",
